@@ -332,14 +332,30 @@ def peval(node, env=None, funcs=None, depth=0):
         return ''.join(parts)
     if isinstance(node, ast.Call):
         f = node.func
-        if isinstance(f, ast.Name) and f.id in ('len', 'set', 'list', 'tuple', 'sorted', 'frozenset', 'str', 'dict') \
-                and not node.keywords:
+        pure = {'len': len, 'set': set, 'list': list, 'tuple': tuple, 'sorted': sorted, 'frozenset': frozenset, 'str': str, 'dict': dict,
+                'chr': chr, 'ord': ord, 'max': max, 'min': min, 'range': range, 'int': int, 'abs': abs, 'bytes': bytes}
+        if isinstance(f, ast.Name) and f.id in pure and not node.keywords:
             args = [ev(a) for a in node.args]
             try:
-                return {'len': len, 'set': set, 'list': list, 'tuple': tuple, 'sorted': sorted,
-                        'frozenset': frozenset, 'str': str, 'dict': dict}[f.id](*args)
+                r_ = pure[f.id](*args)
+                if isinstance(r_, range):
+                    if len(r_) > 100000:
+                        raise CannotEval('range too long')
+                    r_ = list(r_)
+                return r_
+            except CannotEval:
+                raise
             except Exception as e:
                 raise CannotEval(str(e))
+        if isinstance(f, ast.Attribute) and f.attr in ('get', 'keys', 'values', 'items') and not node.keywords:
+            recv = ev(f.value)
+            if isinstance(recv, dict):
+                args = [ev(a) for a in node.args]
+                try:
+                    r_ = getattr(recv, f.attr)(*args)
+                    return list(r_) if f.attr != 'get' else r_
+                except Exception as e:
+                    raise CannotEval(str(e))
         if isinstance(f, ast.Attribute) and f.attr in ('split', 'upper', 'lower', 'join', 'strip', 'title') \
                 and not node.keywords:
             recv = ev(f.value)
@@ -363,6 +379,42 @@ def peval(node, env=None, funcs=None, depth=0):
             raise
         except Exception as e:
             raise CannotEval(str(e))
+    if isinstance(node, (ast.ListComp, ast.SetComp, ast.DictComp, ast.GeneratorExp)) and len(node.generators) == 1 and not node.generators[0].is_async:
+        gen = node.generators[0]
+        seq = ev(gen.iter)
+        try:
+            seq = list(seq)
+        except Exception as e:
+            raise CannotEval(str(e))
+        if len(seq) > 100000:
+            raise CannotEval('comprehension too long')
+        out = []
+        for item in seq:
+            env2 = dict(env)
+            if isinstance(gen.target, ast.Name):
+                env2[gen.target.id] = item
+            elif isinstance(gen.target, ast.Tuple) and all(isinstance(e_, ast.Name) for e_ in gen.target.elts):
+                try:
+                    vals_ = list(item)
+                except Exception as e:
+                    raise CannotEval(str(e))
+                if len(vals_) != len(gen.target.elts):
+                    raise CannotEval('unpack')
+                for e_, v_ in zip(gen.target.elts, vals_):
+                    env2[e_.id] = v_
+            else:
+                raise CannotEval('comprehension target')
+            # plain values shadow AST bindings of the same name
+            if all(peval(c_, env2, funcs, depth + 1) for c_ in gen.ifs):
+                if isinstance(node, ast.DictComp):
+                    out.append((peval(node.key, env2, funcs, depth + 1), peval(node.value, env2, funcs, depth + 1)))
+                else:
+                    out.append(peval(node.elt, env2, funcs, depth + 1))
+        if isinstance(node, ast.DictComp):
+            return dict(out)
+        if isinstance(node, ast.SetComp):
+            return set(out)
+        return out
     if isinstance(node, ast.Starred):
         raise CannotEval('starred')
     raise CannotEval(type(node).__name__)
